@@ -101,3 +101,8 @@ package ruleset
 //@   invariant (len(include) == 0 ==> cap(include) == 0) && (len(exclude) == 0 ==> cap(exclude) == 0)
 //@   invariant (len(include) > 0 ==> allocated(base(include))) && (len(exclude) > 0 ==> allocated(base(exclude)))
 //@   invariant len(include) > 0 && len(exclude) > 0 ==> base(include) != base(exclude)
+
+// The package initialiser establishes the global invariants of this file.
+//@ func init
+//@ property C17
+//@ modifies **
